@@ -18,7 +18,10 @@ CONC_MC = [("Conc", "ConcMC.cfg", "hold", ("quick", "thorough")),
            ("Conc", "ConcMC_broken_ctx.cfg", "violate", ("quick", "thorough")),
            ("Conc", "ConcMC_broken_reg.cfg", "violate", ("quick", "thorough")),
            ("Conc", "ConcMC_late.cfg", "hold", ("quick", "thorough")),           # goroutines still registering cleanups while cleanup() pops
-           ("Conc", "ConcMC_late_broken.cfg", "violate", ("quick", "thorough"))]
+           ("Conc", "ConcMC_late_broken.cfg", "violate", ("quick", "thorough")),
+           # a goroutine asks for the context for the first time while the function returns: the flag is looked at again under the lock (repair 77ef44e)
+           ("Conc", "ConcMC_latectx.cfg", "hold", ("quick", "thorough")),
+           ("Conc", "ConcMC_latectx_pinned.cfg", "violate", ("quick", "thorough"))]
 
 METHODS = {
     "errorf": lambda: op("errorf", text="g"), "fail": lambda: op("fail"), "failed": lambda: op("failed"), "ctx": lambda: op("ctx", text="g"),
@@ -75,6 +78,13 @@ def c14_scenarios(tier, seed):
         prop = {"body": [op("cleanup", body=[op("join")]), op("ctx", text="main"), op("goasync", n=6, ms=15, body=[op("ctx", text="g", val="changes")]), draw(g("Bool"), "b")]}
         out.append(scenario("c14-ctx-during-cleanup-%d" % i, prop, dict(base, seed=rng.randrange(1, 1 << 64), checks=400 if tier == "quick" else 3000),
                             tag={"methods": "Context() while cleanup() runs", "goroutines": 6}))
+    # the interleaving ConcMC_latectx singles out: a goroutine that is the first to ask for the context has seen "not cleaning up" and is held at
+    # rapid's gate before the slow path until the engine pops the first cleanup (which joins it, then looks at the context itself)
+    for i in range(3 if tier == "quick" else 30):
+        prop = {"body": [op("cleanup", body=[op("join"), op("ctx", text="in-cleanup")]), op("hold", text="ctx.checked", val="cleanup.pop"),
+                         op("goasync", n=1, body=[op("ctx", text="g")]), op("sleep", ms=3), draw(g("Bool"), "b")]}
+        out.append(scenario("c14-ctx-first-asked-at-return-%d" % i, prop, dict(base, seed=rng.randrange(1, 1 << 64), checks=5),
+                            tag={"methods": "Context() first called while the function returns", "goroutines": 1, "gate": "ctx.checked"}))
     # goroutines that are still registering cleanups while the engine already runs the test case's cleanups
     for i in range(reps):
         prop = {"body": [op("cleanup", body=[op("join")]), op("goasync", n=rng.choice([4, 8]), ms=rng.choice([50, 150]), body=[op("cleanup", body=[])]),
